@@ -184,6 +184,9 @@ def main(tier=None):
     ops3 = ["new", "append 30", "run 3 in", "append 5570", "run 1 in", "run 5598 clean", "get 5599", "get 5574", "bye"]
     c.run_suite(Suite("large-backlog", "msglog", ops3, both, {"cases": 1, "nontrivial": 1}, resets=("new",)), timeout=3000)
     samples.append({"suite": "large-backlog", "ops": ops3[:8]})
+    # the same consumer inside a whole node: real log, real scheduler, real writer, a recipient that stops reading
+    from checks import brokerlib
+    brokerlib.add_stalled_consumer_suites(c, samples)
     c.assumptions += ["vx-labs/commitlog and the mmap'd state file are modelled, not verified", "SIGKILL (page cache survives), not power loss"]
     return c.finish(samples=samples,
                     rule="case = one log length with one crash position and phase (killed inside the k-th callback / stopped after it) "
